@@ -17,11 +17,15 @@ def classify(line):
 
 
 CFG = dict(
-    imports=["From Verif.Common Require Import Packet PolicyRef.", "From Verif.C30 Require Import Model Spec EndModel EndSpec HistModel HistSpec."],
-    checker="check_all",
+    imports=["From Verif.Common Require Import Packet PolicyRef.", "From Verif.C30 Require Import Model Spec EndModel EndSpec HistModel HistSpec RenderModel RenderSpec."],
+    checker="check_top",
     n=dict(quick=230, thorough=12000),
     shard=28,
-    rule="HISTORIES (kind:history): the real Windows IP-set cache (felix/dataplane/windows/ipsets) wired to the real PolicySets "
+    rule="RENDERING HISTORIES (kind:render-history): ONE real PolicySets + policy manager serving 2-3 renderings by the real "
+         "endpoint manager with different tier layouts (tier-a / default / baseline subsets; the first rendering often ends with "
+         "the default tier, later ones add the tier after it), policies with leading Pass rules, sometimes a policy re-sent "
+         "(same or new content) in between; every rendering compared with the model and judged by the endpoint oracle on its own.  "
+         "HISTORIES (kind:history): the real Windows IP-set cache (felix/dataplane/windows/ipsets) wired to the real PolicySets "
          "as the dataplane wires it (every IP-set change ends in ProcessIpSetUpdate(id)); sets start missing / empty / populated / "
          "disjoint from the rules' CIDRs, then 1-3 policies arrive (most rules use an IP set, often with CIDRs), then 3-7 further "
          "operations in arbitrary order: AddMembers, RemoveMembers, AddOrReplaceIPSet, RemoveIPSet, AddOrReplacePolicySet, "
@@ -63,7 +67,7 @@ CFG = dict(
                  "for the direction the last tier with policies has no Pass rule and does not default to Pass (a Pass leaving the "
                  "last rule list becomes Block: known finding); connections from the node's own addresses are excluded (node->endpoint "
                  "allow rule); combinePorts as repaired by fixes/C30-combine-ports-empty-and-last-port.patch (the unrepaired variant is "
-                 "modelled too and refuted); lists_wf (CIDR lengths <= 32 in the per-tier lists) is a checked hypothesis",
+                 "modelled too and refuted)",
                  "no static rules file", "IP-set members are IPv4 CIDRs/addresses; ip,port members are <ip>,<proto>:<port>"],
 )
 
@@ -80,7 +84,7 @@ MANIFEST = dict(
          "intersection, the services short-circuit, pass / end-of-tier), rules sharing a priority share an action and the "
          "verdict is invariant under reordering; at endpoint level the final flattened list (flattenTiers, combineRules, "
          "rewritePriorities, host rules) evaluated by priority gives PolicyRef.endpoint_verdict for both directions "
-         "(c30_endpoint_same_verdict_partial); over histories of policy-set and IP-set operations the cached rules always equal "
+         "(c30_endpoint_same_verdict); over histories of policy-set and IP-set operations the cached rules always equal "
          "the rules computed fresh from the current policies and sets (c30_history_independent); plus a correspondence run of the model and of the spec oracle against the "
          "real Go code on generated policies, tier layouts, IP sets and connections.",
     note="Trusted: Coq kernel; hand-written model tied to the code only by the correspondence run; stated HNS evaluation "
